@@ -646,6 +646,8 @@ type LoopSpec struct {
 	Invariants []*Clause
 	Exits      []*Clause // assertions that must hold whenever the loop is left (any exit edge)
 	Leaves     []*Clause // assertions on every edge that leaves the loop STATEMENT (after the statements executed before a break)
+	Focus      []string  // focus l1, l2: invariants every preservation obligation of this loop keeps in its focused context
+	HasFocus   bool
 }
 
 type PredDef struct {
@@ -778,7 +780,7 @@ var clauseKeywords = map[string]bool{
 	"props": true, "requires": true, "ensures": true, "modifies": true, "loop": true,
 	"invariant": true, "trusted": true, "inline": true, "mode": true, "params": true,
 	"maypanic": true, "fdef": true, "pure": true, "noalloc": true, "set": true, "reason": true,
-	"uses": true, "lemma": true, "exit": true, "leave": true, "cut": true, "free_ensures": true, "ensures_local": true,
+	"uses": true, "lemma": true, "exit": true, "leave": true, "cut": true, "focus": true, "free_ensures": true, "ensures_local": true,
 	"atomic": true, "exclusive": true, "abstracts": true, "assume_pre": true, "own_writes": true, "ufarith": true, "smtlemma": true, "induct": true, "vars": true, "claim": true, "pattern": true, "smtaxiom": true, "smtdef": true, "guarded": true, "assert": true,
 }
 
@@ -986,6 +988,16 @@ func ParseSpecFile(path, pkgPath string) (*SpecFile, error) {
 					return nil, fail(err)
 				}
 				cur.Ghost = append(cur.Ghost, gs)
+			case "focus":
+				if curLoop == nil {
+					return nil, fail(fmt.Errorf("focus outside loop"))
+				}
+				curLoop.HasFocus = true
+				for _, l := range strings.Split(rest, ",") {
+					if l = strings.TrimSpace(l); l != "" {
+						curLoop.Focus = append(curLoop.Focus, l)
+					}
+				}
 			case "cut":
 				var keep []string
 				soft := false
